@@ -323,6 +323,58 @@ func runC04(raw json.RawMessage, w *Writer) {
 		w.Emit(Ev{"ev": "marshalto", "which": which, "dstlen": n, "fill": fill, "res": outcome(r, err), "errkind": errKind(err),
 			"n": got, "before": ints(before), "after": ints(arena)})
 	}
+	// "whatever the destination previously contained": the destination is the very buffer the packet was decoded
+	// from (payload and extension values alias it) - unchanged, with other fixed fields, and with the first
+	// extension deleted (everything moves towards the front). Expected bytes: Marshal() of a twin decoded from a copy.
+	if res != "ok" || merr != nil || len(c.Dsts) == 0 {
+		return
+	}
+	for _, mode := range []string{"same", "fields", "del_first"} {
+		for which := 0; which < 2; which++ {
+			arena := fillBuf(len(ref)+24, 2)
+			copy(arena, ref)
+			before := cloneBytes(arena)
+			q, twin := &rtp.Packet{}, &rtp.Packet{}
+			if q.Unmarshal(arena[:len(ref)]) != nil || twin.Unmarshal(cloneBytes(ref)) != nil {
+				continue
+			}
+			applicable := true
+			for _, x := range []*rtp.Packet{q, twin} {
+				switch mode {
+				case "fields":
+					x.SequenceNumber ^= 0x5555
+					x.Timestamp += 77777
+					x.SSRC ^= 0x0F0F0F0F
+					x.Marker = !x.Marker
+				case "del_first":
+					ids := x.GetExtensionIDs()
+					if len(ids) == 0 || x.DelExtension(ids[0]) != nil {
+						applicable = false
+					}
+				}
+			}
+			if !applicable {
+				continue
+			}
+			var want []byte
+			var werr, err error
+			got := -1
+			r, _ := guard(func() {
+				if which == 0 {
+					want, werr = twin.Marshal()
+					got, err = q.MarshalTo(arena[:len(ref)])
+				} else {
+					want, werr = twin.Header.Marshal()
+					got, err = q.Header.MarshalTo(arena[:len(ref)])
+				}
+			})
+			if werr != nil {
+				continue
+			}
+			w.Emit(Ev{"ev": "inplace", "mode": mode, "which": which, "res": outcome(r, err), "n": got, "want": ints(want),
+				"before": ints(before), "after": ints(arena)})
+		}
+	}
 }
 
 // ---- C20 -------------------------------------------------------------------
